@@ -35,6 +35,31 @@ for n in ('1', '2', '3'):
     slug = '%s%s' % (prefix, n)
     subprocess.run([sys.executable, os.path.join(ROOT, 'tools', 'keep_mutant.py'), wt, n, pid, slug, log, needs or 'see README.md'], check=False)
     kept.append('%s-ind-%s' % (pid, slug))
+# out/4 (round 4 onwards): a behaviour-preserving refactoring; kept when it applies, builds and passes the suite
+d4 = os.path.join(wt, 'out', '4')
+if os.path.exists(os.path.join(d4, 'patch.diff')):
+    import shutil
+    sh = lambda c: subprocess.run(c, shell=True, cwd=wt, stdout=subprocess.PIPE, stderr=subprocess.STDOUT, text=True)
+    sh('git checkout -q -- . ; git clean -fdq src tools')
+    a = sh('git apply out/4/patch.diff')
+    b = sh('cmake --build _build -j6')
+    c = sh('ctest --test-dir _build -j6 --timeout 900')
+    okc = '100% tests passed' in c.stdout
+    if not okc:
+        c = sh('ctest --test-dir _build --rerun-failed --timeout 900'); okc = '100% tests passed' in c.stdout
+    sh('git checkout -q -- . ; git clean -fdq src tools')
+    if a.returncode == 0 and b.returncode == 0 and okc:
+        dst = os.path.join(ROOT, 'seeded', '%s-harmless-%s4' % (pid, prefix))
+        os.makedirs(dst, exist_ok=True)
+        shutil.copy(os.path.join(d4, 'patch.diff'), dst)
+        rd = os.path.join(d4, 'README.md')
+        if os.path.exists(rd): shutil.copy(rd, dst)
+        json.dump({'property': pid, 'harmless': True, 'origin': 'independent sub-agent: behaviour-preserving refactoring',
+                   'breaks': 'nothing (behaviour-preserving refactoring)', 'ran': 'apply, rebuild, ctest 18/18',
+                   'detected_by': None}, open(os.path.join(dst, 'meta.json'), 'w'), indent=1)
+        kept.append(os.path.basename(dst))
+    else:
+        print(pid, 4, 'harmless refactoring NOT VERIFIED apply=%d build=%d ctest=%s' % (a.returncode, b.returncode, okc))
 subprocess.run(['git', '-C', '/repo', 'worktree', 'remove', '--force', wt])
 subprocess.run(['git', '-C', '/repo', 'worktree', 'prune'])
 print('kept:', ' '.join(kept))
